@@ -118,6 +118,8 @@ pub struct E2Scenario {
     pub w: Workload,
     pub classes: &'static [&'static str],
     pub filter: fn(&ImagePlan) -> bool,
+    /// every n-th image also gets the commit-after-recovery + second-reopen probe (0 = none)
+    pub probe_every: usize,
 }
 
 fn base_w() -> Workload {
@@ -157,6 +159,7 @@ pub fn e2_scenarios() -> Vec<E2Scenario> {
         w: base_w(),
         classes: &["vlog_read", "durability", "prefix"],
         filter: |p| p.loss == Loss::PowerNone,
+        probe_every: 0,
     },
     E2Scenario {
         id: "C07-compaction-output-not-synced",
@@ -174,6 +177,17 @@ pub fn e2_scenarios() -> Vec<E2Scenario> {
         w: base_w(),
         classes: &["open", "read", "durability", "prefix"],
         filter: |p| p.loss == Loss::PowerNone,
+        probe_every: 0,
+    },
+    E2Scenario {
+        id: "C07-torn-multi-block-record",
+        property: "C07",
+        title: "power cut inside a commit-log record that spans several blocks, then a commit and another reopen",
+        cfg: Cfg { vlog: false, max_memtable_size: 2 * 1024 * 1024, flush_on_close: false, level_count: 3, l0_max_files: 4, max_bytes_for_level: 1 << 20, ..Cfg::default() },
+        w: Workload { txns: 14, nkeys: 8, max_value: 150_000, immediate_pct: 0, big_batch_pct: 0, manual_flush_every: 1000, close_at_end: false, ..base_w() },
+        classes: &["open", "probe", "reopen_differs", "read", "prefix", "durability"],
+        filter: |p| matches!(&p.loss, Loss::PowerCut { file, .. } if file.ends_with(".wal")),
+        probe_every: 1,
     }]
 }
 
@@ -184,7 +198,7 @@ pub fn run_scenarios(run: &mut Run, prop: &str) {
     let _ = std::fs::create_dir_all(&scratch);
     let mut results = vec![];
     for s in e2_scenarios().into_iter().filter(|s| s.property == prop) {
-        let out = match trace_and_verify(&scratch, "scen", &s.cfg, &s.w, 1, true, &s.filter, 0, None) {
+        let out = match trace_and_verify(&scratch, "scen", &s.cfg, &s.w, 1, true, &s.filter, s.probe_every, None) {
             Ok(o) => o,
             Err(e) => {
                 run.inconclusive(&format!("directed crash scenario {}: {}", s.id, e));
@@ -270,6 +284,15 @@ pub fn run_part_with(run: &mut Run, a: &Args, prop: &str, vlog: VlogMode) -> (u6
         // every 4th trace: rotations injected between a commit's WAL write and its apply;
         // half of those in deterministic mode with flushes of the oldest immutable memtable
         // injected after publishes (so the older memtable is flushed while the newer is not)
+        let mut cfg = cfg;
+        if ti % 8 == 5 {
+            // commit-log records that span several 32 KiB blocks (batches of ~ a third of a
+            // 256 KiB memtable): crash points and power cuts inside such a record
+            cfg.max_memtable_size = 512 * 1024;
+            w = e2_workload(&mut tr, &cfg, a.tier.pick(40, 90), committers);
+            w.max_value = 100_000; // one value in ten is up to 100 KB
+            w.nkeys = 10;
+        }
         if ti % 4 == 1 {
             w.hook_rotate_pct = *tr.pick(&[10, 25, 50]);
         } else if ti % 4 == 3 {
